@@ -588,7 +588,8 @@ def truncated(ctx, res, binary=None, env=None, sanitizer=False):
             name = 'directive:' + re.sub(r'[^\w=~@!;#%|*-]+', '_', t)[:24]
             cases.append(Case(name, t + nl, v + NOW, info=dict(t=t)))
             # the same fragment after a complete transaction
-            cases.append(Case(name + ':after-xact', '2020/01/01 p\n  A  $1\n  B\n' + t + nl, v + NOW, info=dict(t=t)))
+            if not sanitizer or nl:
+                cases.append(Case(name + ':after-xact', '2020/01/01 p\n  A  $1\n  B\n' + t + nl, v + NOW, info=dict(t=t)))
     run_cases(ctx, cases, 'trunc', binary, env)
     for c in cases:
         res.evaluations += 1
@@ -1048,7 +1049,7 @@ def sanitizer_tier(ctx, res, sites):
         long_tokens(ctx, sub, binary, env, sanitizer=True)
         periods_s = lib.Result()
         nesting_light(ctx, sub, binary, env)
-        mutation(ctx, sub, ctx.scale(0, 1000), binary, env, sanitizer=True, tag="smut")
+        mutation(ctx, sub, ctx.scale(0, 400), binary, env, sanitizer=True, tag="smut")
     finally:
         if owned:
             shutil.rmtree(os.path.join(ctx.workdir, 'asan'), ignore_errors=True)
@@ -1098,7 +1099,7 @@ def run(ctx, light=False):
               ('nesting', lambda: nesting(ctx, res)), ('division', lambda: division(ctx, res)),
               ('periods', lambda: periods(ctx, res)), ('truncated', lambda: truncated(ctx, res)),
               ('long_tokens', lambda: long_tokens(ctx, res)),
-              ('mutation', lambda: mutation(ctx, res, ctx.scale(4000, 20000)))]
+              ('mutation', lambda: mutation(ctx, res, ctx.scale(4000, 12000)))]
     if ctx.tier == 'thorough' and not light:
         phases.append(('sanitizer', lambda: sanitizer_tier(ctx, res, sites)))
     res.extra['phase_wall_s'] = {}
